@@ -355,11 +355,20 @@ impl Monitors {
     // ---------------------------------------------------------------------------------- C05 state
 
     fn check_state_invariant(&mut self, node: usize, t: Triple, whence: &str) {
-        let max = t.cqc.max(t.tqc);
-        let ok = match max {
-            None => t.view == 0,
-            Some(m) => Some(t.view) == m.checked_add(1),
+        // "a replica moves to a new view only on a valid commit or timeout certificate for the preceding view": a replica in view
+        // v > 0 holds the timeout certificate of v-1, or a commit certificate of v-1 or newer (certificates only grow, and a
+        // Byzantine but valid message - a timeout certificate of v-1 whose votes carry a newer commit certificate - can hand a
+        // replica a commit certificate of its current or a later view without moving it; the honest-run invariant
+        // view == max(certificates) + 1 is stricter than the statement and was a false alarm under that input)
+        let ok = match t.view.checked_sub(1) {
+            None => true,
+            Some(p) => t.tqc == Some(p) || t.cqc.is_some_and(|c| c >= p),
         };
+        if let Some(m) = t.cqc.max(t.tqc) {
+            if m >= t.view {
+                self.count("states_holding_a_certificate_of_the_current_or_a_later_view");
+            }
+        }
         if !ok {
             self.alert("C05", format!("view-not-justified||{whence}"), format!("node {node}: view {} with highest commit certificate {:?} and timeout certificate {:?} ({whence})", t.view, t.cqc, t.tqc));
         }
